@@ -2,7 +2,10 @@
 //!
 //! 0 flags ntpl SRC*           full pipeline: templates t0..t{n-1} served by a loader, t0 is
 //!                             rendered with a fixed context, once with debug off and once on.
-//!                             flags bit1: keep_trailing_newline; flags >> 8 = fuel + 1 (0 = unlimited).
+//!                             flags bit1 keep_trailing_newline, bit2 trim_blocks, bit3 lstrip_blocks;
+//!                             bits 4-5 API: 0 loader + get_template, 1 add_template_owned, 2 template_from_str
+//!                             (= render_str), 3 template_from_named_str; bit6: t0 is an *expression*
+//!                             (compile_expression + eval); flags >> 8 = fuel + 1 (0 = unlimited).
 //! 1 flags SRC                 tokenizer only (machinery::tokenize): every token span + the error
 //! 2 nops (op a b c d e f)* nq q*   Instructions line/span tables driven directly
 //!                             op 0 = add, 1 = add_with_line(a), 2 = add_with_span(a..f)
@@ -32,6 +35,10 @@ fn read_src(c: &mut Cur) -> String {
 }
 
 fn tpl_index(name: &str, n: usize) -> i64 {
+    // render_str / template_from_str and compile_expression name their source like this
+    if (name == "<string>" || name == "<expression>") && n >= 1 {
+        return 0;
+    }
     if let Some(r) = name.strip_prefix('t') {
         if let Ok(i) = r.parse::<usize>() {
             if i < n {
@@ -144,6 +151,9 @@ fn pipeline(flags: i64, sources: Arc<Vec<String>>, debug: bool, out: &mut Vec<St
     let mut env = Environment::new();
     env.set_debug(debug);
     env.set_keep_trailing_newline(flags & 2 != 0);
+    env.set_trim_blocks(flags & 4 != 0);
+    env.set_lstrip_blocks(flags & 8 != 0);
+    let api = (flags >> 4) & 3;
     if flags >> 8 > 0 {
         // out of fuel after (flags >> 8) - 1 units: an error at an arbitrary instruction
         env.set_fuel(Some((flags >> 8) as u64 - 1));
@@ -156,9 +166,42 @@ fn pipeline(flags: i64, sources: Arc<Vec<String>>, debug: bool, out: &mut Vec<St
     let mut m = BTreeMap::new();
     m.insert("a", 1);
     let ctx = context! { seq => vec![1, 2, 3], zero => 0, one => 1, s => "str", m => Value::from(m) };
-    let res = catch_unwind(AssertUnwindSafe(|| match env.get_template("t0") {
-        Err(e) => Err((1, e)),
-        Ok(t) => t.render(ctx).map_err(|e| (2, e)),
+    let res = catch_unwind(AssertUnwindSafe(|| {
+        if flags & 64 != 0 {
+            // the expression API: t0 is the expression
+            return match env.compile_expression(&sources[0]) {
+                Err(e) => Err((1, e)),
+                Ok(x) => x.eval(ctx).map(|_| String::new()).map_err(|e| (2, e)),
+            };
+        }
+        match api {
+            1 => {
+                for (i, s) in sources.iter().enumerate().rev() {
+                    if let Err(e) = env.add_template_owned(format!("t{}", i), s.clone()) {
+                        // a broken dependency is found when it is used; only t0 fails the load
+                        if i == 0 {
+                            return Err((1, e));
+                        }
+                    }
+                }
+                match env.get_template("t0") {
+                    Err(e) => Err((1, e)),
+                    Ok(t) => t.render(ctx).map_err(|e| (2, e)),
+                }
+            }
+            2 => match env.template_from_str(&sources[0]) {
+                Err(e) => Err((1, e)),
+                Ok(t) => t.render(ctx).map_err(|e| (2, e)),
+            },
+            3 => match env.template_from_named_str("t0", &sources[0]) {
+                Err(e) => Err((1, e)),
+                Ok(t) => t.render(ctx).map_err(|e| (2, e)),
+            },
+            _ => match env.get_template("t0") {
+                Err(e) => Err((1, e)),
+                Ok(t) => t.render(ctx).map_err(|e| (2, e)),
+            },
+        }
     }));
     match res {
         Err(_) => out.push("9".into()), // the load or the render itself panicked
@@ -215,8 +258,8 @@ fn main() {
                 let src = read_src(c);
                 let ws = WhitespaceConfig {
                     keep_trailing_newline: flags & 2 != 0,
-                    lstrip_blocks: false,
-                    trim_blocks: false,
+                    lstrip_blocks: flags & 8 != 0,
+                    trim_blocks: flags & 4 != 0,
                 };
                 let mut toks: Vec<String> = vec![];
                 let mut n = 0;
@@ -258,6 +301,8 @@ fn main() {
                 let src = read_src(c);
                 let mut env = Environment::new();
                 env.set_keep_trailing_newline(flags & 2 != 0);
+                env.set_trim_blocks(flags & 4 != 0);
+                env.set_lstrip_blocks(flags & 8 != 0);
                 match env.template_from_named_str("t0", &src) {
                     Err(_) => out.push("1".into()),
                     Ok(t) => {
